@@ -7,7 +7,7 @@
    check); the `_partial`/flat theorems next to them carry the narrowest boolean hypothesis.
    Nesting depth of tables inside cells is bounded by 1 in the source type (`citem`). *)
 From Coq Require Import ZArith List Bool Permutation Floats.SpecFloat.
-From S2T Require Import Lib.PyStr C13.Model C13.ProofsHtml C13.ProofsSheets C13.ProofsOds C13.ProofsTree C13.ProofsRtf C13.ProofsOrder C13.ProofsRows C13.ProofsPos C13.ProofsPptx.
+From S2T Require Import Lib.PyStr C13.Model C13.ProofsHtml C13.ProofsSheets C13.ProofsOds C13.ProofsTree C13.ProofsRtf C13.ProofsOrder C13.ProofsRows C13.ProofsPos C13.ProofsPptx C13.ProofsAnchor.
 Import ListNotations.
 Notation length := List.length.
 Notation concat := List.concat.
@@ -453,3 +453,48 @@ Theorem C13_docx_tables_direct_lost_wrapped :
   exists body, docx_tables_direct body = [] /\ docx_tables body = [[[s "in sdt"]]].
 Proof. exact docx_tables_direct_lost_wrapped. Qed.
 Print Assumptions C13_docx_tables_direct_lost_wrapped.
+
+(* ---------------------------------------------------------------- XLSX sheet assembly, exact (no header hypothesis)
+   _read_sheet_data + _is_table_name_row on a rectangular used range: every row below the first is ALWAYS
+   in place with its converted values; the first row is replaced by header texts; it is dropped iff it has
+   exactly one meaningful header and the sheet is wider than one column *)
+Theorem C13_xlsx_sheet_exact : forall is_ws r0 rest c, (1 <= c)%nat -> x_rect c (r0 :: rest) = true ->
+  x_last_row_has_data is_ws (r0 :: rest) = true -> x_last_col_has_data is_ws c (r0 :: rest) = true ->
+  xlsx_sheet is_ws (r0 :: rest) =
+    (let hs := map VStr (x_headers is_ws 0 r0) in
+     if x_is_table_name_row is_ws hs then map (map x_cell_value) rest else hs :: map (map x_cell_value) rest).
+Proof. exact xlsx_sheet_exact. Qed.
+Print Assumptions C13_xlsx_sheet_exact.
+
+Theorem C13_xlsx_body_rows_in_place : forall is_ws r0 rest c, (1 <= c)%nat -> x_rect c (r0 :: rest) = true ->
+  x_last_row_has_data is_ws (r0 :: rest) = true -> x_last_col_has_data is_ws c (r0 :: rest) = true ->
+  exists first, xlsx_sheet is_ws (r0 :: rest) = first ++ map (map x_cell_value) rest /\ (length first <= 1)%nat.
+Proof. exact xlsx_body_rows_in_place. Qed.
+Print Assumptions C13_xlsx_body_rows_in_place.
+
+(* header cell j, exactly: a non-blank text is kept verbatim, a blank one becomes "Unnamed: j" *)
+Theorem C13_xlsx_header_cell_kept : forall is_ws r0 j c0 t, nth_error r0 j = Some c0 -> xc_val c0 = VStr t -> xc_str c0 = t ->
+  strip is_ws t <> [] -> nth_error (x_headers is_ws 0 r0) j = Some t.
+Proof. exact xlsx_header_cell_kept. Qed.
+Print Assumptions C13_xlsx_header_cell_kept.
+
+Theorem C13_xlsx_header_cell_blank_renamed : forall is_ws r0 j c0 t, nth_error r0 j = Some c0 -> xc_val c0 = VStr t ->
+  strip is_ws t = [] -> nth_error (x_headers is_ws 0 r0) j = Some (UNNAMED ++ dec_N (N.of_nat j)).
+Proof. exact xlsx_header_cell_blank_renamed. Qed.
+Print Assumptions C13_xlsx_header_cell_blank_renamed.
+
+(* ---------------------------------------------------------------- DOCX anchors: the two parallel lists stay aligned *)
+Theorem C13_docx_anchored_tables_are_tables : forall body, map fst (docx_tables_anchored body) = docx_tables body.
+Proof. exact docx_anchored_tables_are_tables. Qed.
+Print Assumptions C13_docx_anchored_tables_are_tables.
+
+Theorem C13_docx_anchors_nonneg_monotone : forall body,
+  zsorted (map snd (docx_tables_anchored body)) = true
+  /\ forallb (fun a => (0 <=? a)%Z) (map snd (docx_tables_anchored body)) = true.
+Proof. exact docx_anchors_nonneg_monotone. Qed.
+Print Assumptions C13_docx_anchors_nonneg_monotone.
+
+(* a table is anchored at max(0, paragraph blocks before it - 1); nested tables share their parent's anchor *)
+Theorem C13_docx_anchors_render : forall d : doc, map snd (docx_tables_anchored (docx_r_body d)) = doc_anchor_spec 0 d.
+Proof. exact docx_anchors_render. Qed.
+Print Assumptions C13_docx_anchors_render.
